@@ -334,3 +334,275 @@ def constraints_bounded(spec, cfg, tier, seed):
         r.wall_s = round(time.time() - t0, 2)
         out.append(r)
     return out
+
+
+# ---------------------------------------------------------------------------------------- generic native purity stand-in
+def purity_native(spec, vcfg, f, member, width, tier, seed, detail, dtypes=(None,), tol=0.0, trials=None, layouts=True):
+    """bounded: seeded random batches of 1..6 members (member(rng) -> 1-D tensor of `width` entries), carried in every dtype of
+    `dtypes` (None = as generated).  Clauses of C20: batch == stack of singles, position independent, layouts (B1,B2,n) and
+    (B, b*n) equal per-block evaluation or RAISE, repeated call identical, input unmodified."""
+    import time
+
+    t0 = time.time()
+    rng = random.Random(seed * 13 + 1)
+    fails = {"batch": None, "perm": None, "layout": None, "repeat": None, "frame": None}
+    evals = 0
+    REJ = (ValueError, AssertionError, RuntimeError, IndexError, TypeError, NotImplementedError)
+
+    def close(a, b):
+        a, b = _first(a), _first(b)
+        if tuple(a.shape) != tuple(b.shape):
+            return False
+        ca = a.to(torch.complex128) if a.is_complex() or b.is_complex() else a.to(torch.float64)
+        cb = b.to(ca.dtype)
+        return bool(torch.allclose(ca, cb, rtol=tol, atol=tol, equal_nan=True))
+
+    N = trials or (24 if tier == "quick" else 200)
+    for trial in range(N):
+        dt = dtypes[trial % len(dtypes)]
+        B = rng.randint(1, 6)
+        rows = [member(rng) for _ in range(B)]
+        if dt is not None:
+            rows = [r.to(dt) for r in rows]
+        x = torch.stack(rows)
+        x0 = x.clone()
+        tag = {"dtype": str(x.dtype), "batch": x0.tolist() if x0.numel() <= 96 else f"shape {tuple(x0.shape)} seed {seed} trial {trial}"}
+        try:
+            with torch.no_grad():
+                y = _first(f(x))
+        except REJ:
+            continue  # a dtype / layout the component rejects is an error, not different values
+        evals += 1
+        if not torch.equal(x, x0):
+            fails["frame"] = fails["frame"] or dict(tag, after=x.tolist() if x.numel() <= 96 else "modified")
+            x = x0.clone()
+        try:
+            with torch.no_grad():
+                singles = torch.stack([_first(f(x0[i : i + 1].clone()))[0] for i in range(B)])
+        except REJ as e:
+            fails["batch"] = fails["batch"] or dict(tag, single_call_raised=repr(e))
+            continue
+        if not close(y, singles):
+            fails["batch"] = fails["batch"] or dict(tag, batch_result=str(y.tolist())[:400], single_results=str(singles.tolist())[:400])
+        perm = list(range(B))
+        rng.shuffle(perm)
+        with torch.no_grad():
+            yp = _first(f(x0[perm].clone()))
+        if not close(yp, y[perm]):
+            fails["perm"] = fails["perm"] or dict(tag, perm=perm)
+        with torch.no_grad():
+            y2 = _first(f(x0.clone()))
+        if not close(y2, y):
+            fails["repeat"] = fails["repeat"] or tag
+        if layouts and B % 2 == 0:
+            for lname, xx in (("B1B2n", x0.reshape(2, B // 2, width)), ("Bbn", x0.reshape(B // 2, 2 * width))):
+                try:
+                    with torch.no_grad():
+                        r = _first(f(xx.clone()))
+                except REJ:
+                    continue
+                try:
+                    same = close(r.reshape(B, -1), singles.reshape(B, -1))
+                except RuntimeError:
+                    same = False  # the result does not even have the per-block size
+                if not same:
+                    fails["layout"] = fails["layout"] or dict(tag, layout=lname, result_shape=list(r.shape), result=str(r.tolist())[:300], single_results=str(singles.tolist())[:300])
+    out = []
+    for key, nm in (("batch", "batch_equals_stack_of_singles"), ("perm", "position_independent"), ("layout", "layouts_equal_per_block_or_raise"), ("repeat", "repeated_call_identical"), ("frame", "input_unmodified")):
+        r = ObResult(prop="C20", ob=f"{spec.id}/{nm}", config=str(vcfg), function=spec.function, engine="standin", backend="native", kind="bounded")
+        r.verdict = "discharged" if fails[key] is None else "refuted"
+        r.witness = fails[key]
+        r.replay_confirmed = None if fails[key] is None else True
+        r.paths = evals
+        r.detail = f"bounded: {evals} seeded random batches of 1..6 members; {detail}"
+        r.wall_s = round(time.time() - t0, 2)
+        out.append(r)
+    return out
+
+
+HARD_DTYPES = (None, torch.int32, torch.int64, torch.uint8, torch.float64, torch.bool)
+
+
+def _hard_dec_cfgs(tier):
+    out = []
+    for c in codes.catalogue(tier):
+        enc, _ = codes.try_build(c)
+        if enc is None:
+            continue
+        k, n = enc.generator_matrix.shape
+        if c.family == "rm":
+            if n <= (16 if tier == "quick" else 32):
+                out += codes.with_variants([c], ["rm"])
+            continue
+        if c.family == "bch" and n <= (15 if tier == "quick" else 31):
+            out += codes.with_variants([c], ["bm"])
+        if n - k <= (4 if tier == "quick" else 6) and n <= 16:
+            out += codes.with_variants([c], ["syndrome"])
+        if k <= (4 if tier == "quick" else 6) and n <= 16:
+            out += codes.with_variants([c], ["brute"])
+    return out
+
+
+@obligation(
+    "C20.hard_decoders_dtypes_bounded",
+    function=FD + "syndrome_lookup.py:SyndromeLookupDecoder.forward; " + FD + "brute_force_ml.py:BruteForceMLDecoder.forward; " + FD + "berlekamp_massey.py:BerlekampMasseyDecoder.forward; " + FD + "reed_muller_decoder.py:ReedMullerDecoder.forward",
+    configs=_hard_dec_cfgs,
+    kind="custom",
+    engine="standin",
+)
+def hard_decoders_dtypes(spec, vcfg, tier, seed):
+    """hard-input decoders on received words carried as float32, int32, int64, uint8, float64, bool (the symbolic C20.decoders
+    obligation is float32): codewords with 0..t+1 flipped bits"""
+    cfg, kind = codes.split_variant(vcfg)
+    enc = codes.build(cfg)
+    dec = _decoder(kind, cfg)
+    k, n = enc.generator_matrix.shape
+    t = getattr(enc, "error_correction_capability", None)
+    if not isinstance(t, int):
+        d = getattr(enc, "minimum_distance", None)
+        t = (int(d) - 1) // 2 if isinstance(d, (int, float)) else 1
+
+    def member(rng):
+        m = torch.tensor([[float(rng.randint(0, 1)) for _ in range(k)]])
+        with torch.no_grad():
+            c = enc(m)[0].clone()
+        w = 0 if rng.random() < 0.25 else rng.randint(0, t + 1)
+        for j in rng.sample(range(n), min(w, n)):
+            c[j] = 1 - c[j]
+        return c
+
+    return purity_native(spec, vcfg, dec.forward, member, n, tier, seed, "codewords with 0..t+1 flipped bits, dtypes float32/int32/int64/uint8/float64/bool in turn", dtypes=HARD_DTYPES)
+
+
+def _soft_dec_cfgs(tier):
+    out = [codes.Cfg("wagner", k) for k in ((2, 4, 7) if tier == "quick" else (1, 2, 3, 4, 7, 10))]
+    out += [codes.Cfg("sc", N, k, regime) for N, k in (((4, 2), (8, 4), (16, 7)) if tier == "quick" else ((4, 2), (8, 4), (16, 7), (32, 16), (64, 30))) for regime in ("min_sum", "sum_product")]
+    out += [codes.Cfg("polar_bp", N, k, es) for N, k in ((4, 2), (8, 4), (16, 7)) for es in (0, 1)]
+    out += [codes.Cfg("ldpc_bp", i, kind) for i in range(2 if tier == "quick" else 4) for kind in ("bp", "bp_taylor", "minsum")]
+    out += [codes.Cfg("rm_soft", r, m) for r, m in (((1, 3), (1, 4)) if tier == "quick" else ((1, 3), (1, 4), (2, 4), (2, 5)))]
+    return out
+
+
+_LDPC_H = [
+    [[1, 1, 0, 1, 0, 0], [0, 1, 1, 0, 1, 0], [1, 0, 1, 0, 0, 1]],
+    [[1, 1, 0, 1, 1, 0, 0], [1, 0, 1, 1, 0, 1, 0], [0, 1, 1, 1, 0, 0, 1]],
+    [[1, 1, 1, 0, 1, 0, 0, 0], [0, 1, 1, 1, 0, 1, 0, 0], [1, 0, 1, 1, 0, 0, 1, 0], [1, 1, 0, 1, 0, 0, 0, 1]],
+    [[1, 0, 0, 1, 1, 0, 1, 0, 0], [0, 1, 0, 1, 0, 1, 0, 1, 0], [0, 0, 1, 0, 1, 1, 0, 0, 1]],
+]
+
+
+def _soft_pair(cfg):
+    import contextlib
+    import io
+
+    fam = cfg[0]
+    with contextlib.redirect_stdout(io.StringIO()):
+        if fam == "wagner":
+            from kaira.models.fec.decoders.wagner_soft_decision_decoder import WagnerSoftDecisionDecoder
+            from kaira.models.fec.encoders import SingleParityCheckCodeEncoder
+
+            enc = SingleParityCheckCodeEncoder(cfg[1])
+            return enc, WagnerSoftDecisionDecoder(enc)
+        if fam == "sc":
+            from kaira.models.fec.decoders.successive_cancellation import SuccessiveCancellationDecoder
+            from kaira.models.fec.encoders.polar_code import PolarCodeEncoder
+
+            enc = PolarCodeEncoder(cfg[2], cfg[1])
+            return enc, SuccessiveCancellationDecoder(enc, regime=cfg[3])
+        if fam == "polar_bp":
+            from kaira.models.fec.decoders.belief_propagation_polar import BeliefPropagationPolarDecoder
+            from kaira.models.fec.encoders.polar_code import PolarCodeEncoder
+
+            enc = PolarCodeEncoder(cfg[2], cfg[1])
+            return enc, BeliefPropagationPolarDecoder(enc, bp_iters=5, early_stop=bool(cfg[3]))
+        if fam == "ldpc_bp":
+            from kaira.models.fec.decoders.belief_propagation import BeliefPropagationDecoder
+            from kaira.models.fec.decoders.min_sum_ldpc import MinSumLDPCDecoder
+            from kaira.models.fec.encoders.ldpc_code import LDPCCodeEncoder
+
+            enc = LDPCCodeEncoder(check_matrix=torch.tensor(_LDPC_H[cfg[1]], dtype=torch.float32))
+            if cfg[2] == "minsum":
+                return enc, MinSumLDPCDecoder(enc, bp_iters=5, scaling_factor=0.75)
+            return enc, BeliefPropagationDecoder(enc, bp_iters=5, arctanh=cfg[2] == "bp")
+        if fam == "rm_soft":
+            from kaira.models.fec.decoders.reed_muller_decoder import ReedMullerDecoder
+            from kaira.models.fec.encoders import ReedMullerCodeEncoder
+
+            enc = ReedMullerCodeEncoder(cfg[1], cfg[2])
+            return enc, ReedMullerDecoder(enc, input_type="soft")
+    raise KeyError(fam)
+
+
+FDS = (
+    FD + "wagner_soft_decision_decoder.py:WagnerSoftDecisionDecoder.forward; " + FD + "successive_cancellation.py:SuccessiveCancellationDecoder.forward; " + FD + "belief_propagation_polar.py:BeliefPropagationPolarDecoder.forward; "
+    + FD + "belief_propagation.py:BeliefPropagationDecoder.forward; " + FD + "min_sum_ldpc.py:MinSumLDPCDecoder.forward; " + FD + "reed_muller_decoder.py:ReedMullerDecoder.forward"
+)
+
+
+@obligation("C20.soft_decoders_bounded", function=FDS, configs=_soft_dec_cfgs, kind="custom", engine="standin")
+def soft_decoders_bounded(spec, cfg, tier, seed):
+    """soft-input decoders of C10/C11: noisy BPSK LLRs of random codewords (noise-free, mildly noisy and hopeless members in one
+    batch, so that early-stopping members sit next to members that use every iteration), float32 and float64"""
+    enc, dec = _soft_pair(cfg)
+    k, n = enc.code_dimension, enc.code_length
+    g = torch.Generator().manual_seed(seed * 17 + 3)
+
+    def member(rng):
+        m = torch.tensor([[float(rng.randint(0, 1)) for _ in range(k)]])
+        with torch.no_grad():
+            c = enc(m)[0]
+        sigma = rng.choice([0.0, 0.3, 0.8, 3.0])
+        a = rng.choice([0.5, 2.0, 8.0])
+        return a * ((1 - 2 * c) + sigma * torch.randn(n, generator=g))
+
+    return purity_native(spec, cfg, dec.forward, member, n, tier, seed, "LLRs a((1-2c) + sigma w), sigma in {0, .3, .8, 3}, a in {.5, 2, 8}; float32 and float64 in turn", dtypes=(None, torch.float64), tol=1e-5)
+
+
+def _mod_cfgs(tier):
+    from . import mods
+
+    return [c for c in mods.catalogue(tier, families=("bpsk", "qpsk", "psk", "qam", "pam"), max_points=64 if tier == "quick" else 256)]
+
+
+FMOD = "kaira/modulations/psk.py:BPSKModulator.forward; kaira/modulations/psk.py:QPSKModulator.forward; kaira/modulations/psk.py:PSKModulator.forward; kaira/modulations/qam.py:QAMModulator.forward; kaira/modulations/pam.py:PAMModulator.forward"
+FDEM = "kaira/modulations/psk.py:BPSKDemodulator.forward; kaira/modulations/psk.py:QPSKDemodulator.forward; kaira/modulations/psk.py:PSKDemodulator.forward; kaira/modulations/qam.py:QAMDemodulator.forward; kaira/modulations/pam.py:PAMDemodulator.forward"
+
+
+@obligation("C20.modulators_bounded", function=FMOD, configs=_mod_cfgs, kind="custom", engine="standin")
+def modulators_bounded(spec, cfg, tier, seed):
+    """memoryless modulators: batches of bit rows (3 symbols per row), bits carried as float32 / int64 / uint8 / bool / float64"""
+    from . import mods
+
+    mod, _ = mods.build(cfg)
+    b = mods.bits_per_symbol(cfg)
+    member = lambda rng: torch.tensor([float(rng.randint(0, 1)) for _ in range(3 * b)])
+    return purity_native(spec, cfg, mod.forward, member, 3 * b, tier, seed, "3 symbols per member; bits as float32/int64/uint8/bool/float64 in turn", dtypes=(None, torch.int64, torch.uint8, torch.bool, torch.float64), tol=1e-6)
+
+
+@obligation("C20.demodulators_bounded", function=FDEM, configs=lambda tier: codes.with_variants(_mod_cfgs(tier), ["hard", "soft"]), kind="custom", engine="standin")
+def demodulators_bounded(spec, vcfg, tier, seed):
+    """memoryless demodulators, hard and soft (noise variance 0.5): batches of noisy symbol rows incl. points on decision
+    boundaries (ties) and far outside the constellation; complex64 and complex128"""
+    from . import mods
+
+    cfg, how = codes.split_variant(vcfg)
+    mod, dem = mods.build(cfg)
+    b = mods.bits_per_symbol(cfg)
+    g = torch.Generator().manual_seed(seed * 19 + 7)
+    f = dem.forward if how == "hard" else (lambda y: dem(y, 0.5))
+
+    def member(rng):
+        bits = torch.tensor([float(rng.randint(0, 1)) for _ in range(3 * b)])
+        with torch.no_grad():
+            s = mod(bits).to(torch.complex64)
+        kind = rng.random()
+        if kind < 0.2:
+            return s  # noise-free
+        if kind < 0.3:
+            return torch.zeros_like(s)  # the origin: a tie of every symmetric constellation
+        if kind < 0.4:
+            return s * 25.0  # far outside
+        return s + rng.choice([0.05, 0.3, 1.0]) * torch.complex(torch.randn(3, generator=g), torch.randn(3, generator=g))
+
+    # soft outputs of tied members may differ in the last float bit between batch sizes: tolerance 1e-5; hard outputs are compared exactly through it as well (0/1 values)
+    return purity_native(spec, vcfg, f, member, 3, tier, seed, "3 symbols per member: noise-free, origin (tie), far outside, noisy; complex64 and complex128 in turn", dtypes=(None, torch.complex128), tol=1e-5)
